@@ -106,8 +106,9 @@ func rootState(l *lexer) stateFn {
 		l.emit(LeftAngleBracket)
 	case r == '>':
 		l.emit(RightAngleBracket)
-	case unicode.IsDigit(r):
-		l.backup()
+	case r >= '0' && r <= '9':
+		// only ASCII digits start a number: for any other Unicode digit the scan below consumed
+		// nothing, the state machine came back here with the same input and never finished
 		l.acceptRun("0123456789")
 		l.emit(Number)
 	case r == '-':
